@@ -181,7 +181,9 @@ def check(case, rec):
                                         axis=axis)
             idp = os.path.join(d, "ids.txt")
             with open(idp, "w", encoding="utf8") as f:
-                f.write("#comment line\n" + "\n".join(request) + "\n")
+                # (the last line may or may not end with a newline)
+                f.write("#comment line\n" + "\n".join(request) +
+                        ("\n" if len(request) % 2 else ""))
             out = os.path.join(d, "out.biom")
             from ..cli import command
             subset_table = command("subset-table")
